@@ -273,6 +273,7 @@ pub fn run(cx: &mut Cx) {
     for k in ["matching-candidates/0", "matching-candidates/1", "matching-candidates/2", "matching-candidates/3", "lists-with-ties", "reductions/left-fold-permutations", "reductions/bracketings"] {
         cx.ev.require(k);
     }
+    cx.ev.require("boundary-shift/pairs");
     let n = cx.per_shard(30, 2_500, 96_000, 600_000);
     let mut r = cx.stream("lists");
     for _ in 0..n {
